@@ -129,7 +129,16 @@ def check_frames(ctx, rep, name, direction, frames):
     q, meta = [], []
     for uid, frame, other in frames:
         for kind, bad in corruptions(ctx.rng, frame, ctx.quick):
-            ctxt = ctx.rng.choice(['alone', 'before', 'after', 'after-foreign'])
+            ctxt = ctx.rng.choice(['alone', 'before', 'after', 'after-foreign', 'after-intact'])
+            if ctxt == 'after-intact':
+                # the INTACT frame itself first (verified, delivered), then its damaged copy: nothing a receiver remembers of a
+                # frame it has checked - unit, length, checksum bytes - vouches for the next one
+                chunks = [list(frame), bad]
+                if ctx.rng.random() < 0.3:
+                    chunks = [[b for c in chunks for b in c]]
+                q.append({'op': 'feed', 'framer': name, 'dir': rdir, 'units': [uid], 'single': False, 'chunks': chunks})
+                meta.append((uid, kind, ctxt, chunks))
+                continue
             if ctxt == 'after-foreign':
                 # a well-formed frame for ANOTHER unit, then the damaged one, in the same read
                 fu = uid % 246 + 1
